@@ -199,7 +199,57 @@ def run_absent(case, res=None):
             if len(got) != 0:
                 raise Violation("%s: Search(empty keyword) returned %d identifiers: %r" % (built.scheme_name, len(got), list(got)[:3]),
                                 "%s:absent_nonempty" % built.scheme_name)
+        # the same scheme object and key encrypt a SECOND database from which the first keyword is missing (an application
+        # re-indexing after a deletion): that keyword is now absent and must give an empty result on the new index
+        if len(kws) >= 2:
+            import gc
+            first_kw = kws[0]
+            db2 = {w: list(v) for w, v in built.db.items() if w != first_kw}
+            built.search(first_kw)
+            old = built.edb
+            built.edb = None
+            del old
+            gc.collect()
+            try:
+                edb2 = built.scheme.EDBSetup(built.key, db2)
+            except Exception as e:
+                from vlib.search_common import stage_violation
+                raise stage_violation(built.scheme_name, "EDBSetup(second database, same scheme object)", e)
+            built.edb, built.db = edb2, db2
+            check_absent(built, first_kw, "removed_in_second_database")
+            for w in list(db2)[:3]:
+                check_present(built, w)
+            if res is not None:
+                res.cls("absent:removed_in_second_database")
         return len(absent)
+
+
+def short_keyword_sweep(scheme, tier, seed):
+    """databases whose keywords are all one byte long, N not a power of two; every other one-byte keyword is searched"""
+    desc = S.DESCS[scheme]
+    for ci in range(1 if tier == "quick" else 3):
+        cfg = small_config(scheme, ci)
+        for lens in ([1, 2], [3], [2, 2, 1], [5, 1]) if tier == "quick" else ([1, 2], [3], [2, 2, 1], [5, 1], [6, 3, 2], [7], [9, 1, 1]):
+            if not lens_valid(desc, cfg, lens):
+                continue
+            case = explicit_case(scheme, cfg, lens, seed + sum(lens))
+            case["db"]["kws"] = [bytes([65 + 7 * i]).hex() for i in range(len(lens))]
+            case["sweep"] = True
+            yield case
+
+
+def run_sweep(case, res=None):
+    with entropy(case["seed"]):
+        built = Built(case)
+        n = 0
+        for b in range(1, 256):
+            w = bytes([b])
+            if w in built.db:
+                continue
+            check_absent(built, w, "one_byte_sweep")
+            n += 1
+        if res is not None:
+            res.classes["absent:one_byte_sweep"] = res.classes.get("absent:one_byte_sweep", 0) + n
 
 
 def make_shards(tier):
@@ -239,7 +289,10 @@ def run_shard_generic(spec, seed, tier, mode):
     else:
         first = {}
         count = {}
-        for label, case in explicit_cases(scheme, tier, seed % 1000):
+        cases = list(explicit_cases(scheme, tier, seed % 1000))
+        if mode == "absent" and scheme != "CGKO06.SSE2":
+            cases += [("one_byte_sweep", c) for c in short_keyword_sweep(scheme, tier, seed % 1000)]
+        for label, case in cases:
             if mode == "absent" and label == "partition" and sum(case["db"]["lens"]) > 8:
                 continue
             count[label] = count.get(label, 0) + 1
@@ -247,6 +300,8 @@ def run_shard_generic(spec, seed, tier, mode):
             try:
                 if mode == "present":
                     run_present(case)
+                elif case.get("sweep"):
+                    run_sweep(case, res)
                 else:
                     run_absent(case, res)
             except Violation as v:
@@ -265,6 +320,8 @@ def replay_generic(case, mode):
     try:
         if mode == "present":
             run_present(case)
+        elif case.get("sweep"):
+            run_sweep(case)
         else:
             run_absent(case)
     except Violation as v:
